@@ -94,10 +94,13 @@ package loader
 // C15: an extended (base) project is placed BEFORE the project that extends it, recursively for chains: everything
 // that was in the list at or after `index` - in particular what the caller appends afterwards follows - stays behind
 // the whole inserted chain, and nothing before `index` moves.
+// C17: the project that is returned has been the target of exactly ONE yaml.Unmarshal (yaml merges into the maps
+// of an existing object, so a second parse into the same object would keep the keys of the first one): the
+// expanded text when expansion is enabled, the raw text - and nothing of the expanded one - when it is disabled.
 //@ func loadProjectFromFile
-//@   flag trusted
-//@   ensures result1 == nil ==> result0 != nil && fresh(result0)
-//@   assigns nothing
+//@   ensures fresh-project: result1 == nil ==> result0 != nil && fresh(result0)
+//@   ensures parsed-once: result1 == nil ==> unmarshals(boxed(result0)) == old(unmarshals(boxed(result0))) + 1
+//@   assigns unmarshals[*]
 //@ func copyWorkingDirToProcesses
 //@   flag trusted
 //@   assigns types.ProcessConfig.WorkingDir[*], heap(MapVal.Str.types.ProcessConfig)
